@@ -178,7 +178,9 @@ Fixpoint product_ok (pabs : ts) (n : anode) : bool :=
   | ALeaf a => ts_eqb a pabs
   | AGroup t a ch => ts_eqb a (ts_concat pabs t) && forallb (product_ok a) ch
   end.
-(* KNOWN class use_transform_twice: a group made by use_node::convert for a `use` / `symbol` element that carries its own
+(* (214a8de: a `use` linked to a symbol WITHOUT viewport clip is an ordinary convert_group of the use element - GK_Plain with
+   T(use) - whose only child is the symbol group, GK_ViaUse with node transform T(symbol) and passed = translate(x, y) * viewBox.)
+   KNOWN class use_transform_twice: a group made by use_node::convert for a `use` / `symbol` element that carries its own
    `transform` attribute (GK_ViaUse with a non-identity node transform, GK_ClipWrap with a non-identity passed one).
    Nested `svg` elements left the class with fb5447a: convert_svg passes the identity to clip_element and builds the
    viewport group with abs = parent abs * transform (GK_Plain). *)
@@ -342,3 +344,41 @@ Definition bnode_local_ok (pabs : ts) (n : bnode) : bool :=
   | BLeaf a _ => ts_eqb a pabs
   | BGroup t a _ _ => ts_eqb a (ts_concat pabs t)
   end.
+
+(* ------------------------------------------------------------------ extension round 4 (b): fill box, stroke box, layer box *)
+(* Path::calculate_stroke_bbox strokes the path (dash removed) with tiny-skia and takes the tight bounds of the outline: the
+   stroker is not modelled; what is modelled is the sandwich every leaf must satisfy:
+     fill box  <=  stroke box  <=  fill box inflated by the largest distance a stroke outline point can have from the path:
+   half the width times 1 (butt / round caps, round / bevel joins), sqrt 2 <= 3/2 (square cap corner), the miter limit (miter
+   join: tip at w/2 / sin(theta/2) <= w/2 * limit) or sqrt(limit^2 + 1) <= limit + 1 (miter-clip: corners of the clipped tip). *)
+Definition inflate (b : box) (r : Q) : box := mkbox (bx0 b - r) (by0 b - r) (bx1 b + r) (by1 b + r).
+(* join: 0 miter, 1 miter-clip, 2 round, 3 bevel;  cap: 0 butt, 1 round, 2 square *)
+Definition stroke_radius (w ml : Q) (join cap : N) : Q :=
+  (w / 2) * Qmax (Qmax 1 (match join with 0%N => ml | 1%N => ml + 1 | _ => 1 end)) (match cap with 2%N => 3 # 2 | _ => 1 end).
+(* checker for the correspondence `leaf-sandwich`; slack: f32 + the stroker's curve flattening (measured, see c12.py) *)
+Definition chk_leaf_sandwich (slack : Q) (stroked : bool) (w ml : Q) (join cap : N) (fill stroke : box) : bool :=
+  containsb (inflate stroke slack) fill &&
+  (if stroked then containsb (inflate fill (stroke_radius w ml join cap * (21 # 20) + slack)) stroke else true).
+
+(* ------------------------------------------------------------------ round 5: the EXACT wrong values of class use_transform_twice *)
+(* A group that violates the product is excused by the class only when its abs_transform is the value the unchanged code is
+   known to produce (any other value is a different defect of the same shape: seed C12-17):
+     KW_ViaUse    GK_ViaUse:   transform = passed, abs = P * passed * T(node);  for a `use` -> non-symbol, passed = T * translate(x, y)
+                  (`use_passed` says whether the candidate carries that constraint; a `symbol` with its own transform S has
+                  passed = translate(x, y) * viewBox: no constraint on ts, aux = S)
+     KW_ClipWrap  GK_ClipWrap: transform = passed <> identity, abs = P
+     KW_Inner     the `use` group inside a GK_ClipWrap wrapper whose own abs_transform is the known-wrong P (parent abs =
+                  grandparent abs, parent transform T <> identity): transform = identity (reset), abs = P * T *)
+Definition kw_via_use (tol : Q) (pabs t a : ts) (cand : bool * ts * ts) : bool :=
+  match cand with
+  | (use_passed, passed, aux) =>
+      (if use_passed then ts_closeb tol t passed else true) && negb (ts_closeb tol aux ts_identity) &&
+      ts_closeb tol a (ts_concat (ts_concat pabs t) aux)
+  end.
+Definition kw_clip_wrap (tol : Q) (pabs t a : ts) : bool :=
+  ts_closeb tol a pabs && negb (ts_closeb tol t ts_identity).
+Definition kw_inner (tol : Q) (gp_abs pabs parent_ts t a : ts) : bool :=
+  ts_closeb tol t ts_identity && ts_closeb tol pabs gp_abs && negb (ts_closeb tol parent_ts ts_identity) &&
+  ts_closeb tol a (ts_concat pabs parent_ts).
+Definition known_wrong_use (tol : Q) (gp_abs pabs parent_ts t a : ts) (wrap_ok : bool) (cands : list (bool * ts * ts)) : bool :=
+  (wrap_ok && kw_clip_wrap tol pabs t a) || (wrap_ok && kw_inner tol gp_abs pabs parent_ts t a) || existsb (kw_via_use tol pabs t a) cands.
